@@ -336,6 +336,15 @@ func (c *fctx) assignSpecial(e *emitter, ind int, st *ast.AssignStmt) bool {
 		}
 		for i := 0; i < fsig.Params().Len(); i++ {
 			ps = append(ps, c.leanType(st, fsig.Params().At(i).Type()))
+			if fsig.Variadic() && i == fsig.Params().Len()-1 && !call.Ellipsis.IsValid() {
+				// the variadic parameter is the slice of the remaining arguments
+				var rest []string
+				for _, a := range call.Args[i:] {
+					rest = append(rest, c.expr(a))
+				}
+				args = append(args, "(["+strings.Join(rest, ", ")+"] : "+c.leanType(st, fsig.Params().At(i).Type())+")")
+				continue
+			}
 			args = append(args, c.expr(call.Args[i]))
 		}
 		for i := 0; i < fsig.Results().Len(); i++ {
@@ -642,8 +651,20 @@ func (c *fctx) addrArgCall(e *emitter, ind int, call *ast.CallExpr) bool {
 
 // switchStmt: a tagless switch without fallthrough is an if / else-if chain
 func (c *fctx) switchStmt(e *emitter, ind int, st *ast.SwitchStmt) {
-	if st.Tag != nil || st.Init != nil {
-		c.fail(st, "switch with a tag or an init statement")
+	if st.Init != nil {
+		c.fail(st, "switch with an init statement")
+	}
+	// a tag is evaluated once; each case value is compared with it (strings, integers, bytes)
+	tag := ""
+	if st.Tag != nil {
+		if c.partial(st.Tag) {
+			c.fail(st, "switch tag that can fault")
+		}
+		if lt, ok := leanTypeOf(c.typeOf(st.Tag)); !ok || (lt != "(List UInt8)" && lt != "Int" && lt != "UInt8" && lt != "UInt32" && lt != "Bool") {
+			c.fail(st, "switch on a value of type %s", c.typeOf(st.Tag))
+		}
+		tag = c.tmp()
+		e.add(ind, "let "+tag+" := "+c.expr(st.Tag))
 	}
 	var clauses []*ast.CaseClause
 	var def *ast.CaseClause
@@ -655,7 +676,9 @@ func (c *fctx) switchStmt(e *emitter, ind int, st *ast.SwitchStmt) {
 				case *ast.ForStmt, *ast.RangeStmt, *ast.SwitchStmt, *ast.FuncLit:
 					return false
 				case *ast.BranchStmt:
-					if x.Tok == token.FALLTHROUGH || x.Tok == token.BREAK {
+					// (a break that names the enclosing loop leaves the loop, not the switch: translated as the loop's break)
+					labelled := x.Label != nil && c.lc != nil && c.lc.label != "" && x.Label.Name == c.lc.label
+					if x.Tok == token.FALLTHROUGH || (x.Tok == token.BREAK && !labelled) {
 						c.fail(st, "%s inside a switch", x.Tok)
 					}
 				}
@@ -681,7 +704,11 @@ func (c *fctx) switchStmt(e *emitter, ind int, st *ast.SwitchStmt) {
 		cc := clauses[i]
 		var conds []string
 		for _, x := range cc.List {
-			conds = append(conds, c.expr(x))
+			if tag != "" {
+				conds = append(conds, "("+tag+" == "+c.exprAs(x, c.typeOf(st.Tag))+")")
+			} else {
+				conds = append(conds, c.expr(x))
+			}
 		}
 		e.add(ind, "if "+strings.Join(conds, " || ")+" then")
 		c.block(e, ind+1, cc.Body)
